@@ -1158,6 +1158,25 @@ def dataset_level_readahead(ld, r, tier):
                 bound = (b + 2) if kind.startswith('prefetch1') or (kind.startswith('prefetch') and w == 1 and kind != 'prefetch_catch_cls') else b * per
                 if worst > bound:
                     fails.append(f'{kind} num_workers={w} buffer_size={b}: {worst} function applications ahead of the consumer (bound {bound})')
+        # the documented defaults of a direct call (buffer_size=5, max_workers=2)
+        import lazy_dataset.parallel_utils as _pu
+        started = []
+
+        def fn0(x):
+            started.append(x)
+            return x
+        runs += 1
+        it = _pu.lazy_parallel_map(fn0, iter(range(n)))
+        try:
+            worst = 0
+            for k in range(1, 6):
+                next(it)
+                time.sleep(0.03)
+                worst = max(worst, len(started) - k)
+        finally:
+            it.close()
+        if worst > 4:         # a result is handed out only when buffer_size computations are submitted: buffer_size - 1 stay ahead of it
+            fails.append(f'lazy_parallel_map with its default buffer size: {worst} function applications ahead of the consumer (documented default buffer_size = 5 allows 4)')
         # buffer sizes outside the documented range (0, negative, smaller than the worker count): either refused loudly or
         # still bounded - never an unbounded read-ahead
         for (w, b) in [(1, 0), (1, -1), (2, 1), (2, 0), (1, -3)]:
